@@ -1,4 +1,5 @@
 """C03 — register banks update only at the clock edge, honouring stall and bubble."""
+from props import C19
 import re
 from props.common_prog import judge_prog
 
@@ -26,4 +27,6 @@ def judge(req, impl, model, spec):
 def streams(tier, seed):
     q = tier == "quick"
     return [{"name": "prog-banks", "stream": "prog", "count": 500 if q else 20000, "extra": ("banks",), "judge": judge},
-            {"name": "prog-dag", "stream": "prog", "count": 150 if q else 5000, "extra": ("dag",), "judge": judge}]
+            {"name": "prog-dag", "stream": "prog", "count": 150 if q else 5000, "extra": ("dag",), "judge": judge},
+            # what the user sees goes through the command line and the two files: the real binary on accepted, rejected, big, not-UTF-8, bare-CR files, good and malformed images, all options and TIMEOUT forms (as in C19)
+            {"name": "cli", "stream": "cli", "count": 200 if q else 5000, "pygen": C19.pygen, "judge": C19.judge}]
